@@ -19,7 +19,13 @@ def scenarios(ctx, salt):
     out = []
     for fam, nq, nt in FAMILY_N:
         rng = ctx.rng(f"e2e-sendtrace/{salt}/{fam}")
-        out += [(fam, e2e_props.FAMILIES[fam](rng, i)) for i in range(tier_n(ctx, nq, nt))]
+        for i in range(tier_n(ctx, nq, nt)):
+            p = e2e_props.FAMILIES[fam](rng, i)
+            if i % 3 == 1:
+                # a small send buffer makes the application slower than the network: writes interleave with
+                # transmissions, so a FIN / final size announced before the application is done would show
+                p["c.send_buffer"] = p["s.send_buffer"] = rng.choice([1000, 1500, 4000])
+            out.append((fam, p))
     return out
 
 
